@@ -371,6 +371,81 @@ func strayWakes(p *packages.Package) []string {
 	return res
 }
 
+// shape of faults.Set.Check: which of the expected steps are present, in source order
+func faultsCheckShape(p *packages.Package) []string {
+	fd := funcDecl(p, "Set", "Check")
+	var shape []string
+	if fd == nil {
+		return shape
+	}
+	ast.Inspect(fd.Body, func(n ast.Node) bool {
+		switch x := n.(type) {
+		case *ast.CallExpr:
+			name := exprName(x.Fun)
+			switch {
+			case name == "s.match":
+				shape = append(shape, "match")
+			case name == "atomic.AddInt64" && len(x.Args) == 2:
+				if tv, ok := p.TypesInfo.Types[x.Args[1]]; ok && tv.Value != nil {
+					shape = append(shape, "atomic-add:"+tv.Value.ExactString())
+				} else {
+					shape = append(shape, "atomic-add:?")
+				}
+			case name == "d.OnFault":
+				shape = append(shape, "fire")
+			}
+		case *ast.IfStmt:
+			if be, ok := x.Cond.(*ast.BinaryExpr); ok {
+				if id, ok := be.X.(*ast.Ident); ok && id.Name == "remaining" {
+					if tv, ok := p.TypesInfo.Types[be.Y]; ok && tv.Value != nil && tv.Value.ExactString() == "0" {
+						switch be.Op {
+						case token.LEQ:
+							shape = append(shape, "prune-if<=0")
+						case token.LSS:
+							if len(x.Body.List) == 1 {
+								if b, ok := x.Body.List[0].(*ast.BranchStmt); ok && b.Tok == token.CONTINUE {
+									shape = append(shape, "retry-if<0")
+								} else {
+									shape = append(shape, "if<0:other")
+								}
+							}
+						default:
+							shape = append(shape, "if-remaining:"+be.Op.String())
+						}
+					}
+				}
+			}
+		}
+		return true
+	})
+	return shape
+}
+
+// shape of faults.Description.match: the early returns, in source order
+func faultsMatchShape(p *packages.Package) []string {
+	fd := funcDecl(p, "Description", "match")
+	var shape []string
+	if fd == nil {
+		return shape
+	}
+	for _, st := range fd.Body.List {
+		switch x := st.(type) {
+		case *ast.IfStmt:
+			if be, ok := x.Cond.(*ast.BinaryExpr); ok {
+				l := exprName(be.X)
+				shape = append(shape, "if:"+l+be.Op.String()+exprName(be.Y))
+			}
+		case *ast.RangeStmt:
+			shape = append(shape, "range:"+exprName(x.X))
+		case *ast.ReturnStmt:
+			if len(x.Results) == 1 {
+				shape = append(shape, "return:"+exprName(x.Results[0]))
+			}
+		}
+	}
+	return shape
+}
+
 func main() {
 	repo := "/repo"
 	if len(os.Args) > 1 {
@@ -457,6 +532,10 @@ func main() {
 	fmt.Fprintf(&out, "\n/-- every tx.OnCommit hook: (where, shape); \"guarded\" = wakes only after the inner commit returned nil -/\ndef commitHooks : List (String × String) := [\n  %s]\n", strings.Join(hs, ",\n  "))
 	stray := append(strayWakes(act), strayWakes(svc)...)
 	fmt.Fprintf(&out, "/-- Wake* call sites outside commit hooks (outside notify.go) -/\ndef strayWakes : List String := %s\n", q(stray))
+
+	flt := byName["faults"]
+	fmt.Fprintf(&out, "\n/-- steps of faults.Set.Check found in the source, in order -/\ndef faultsCheckShape : List String := %s\n", q(faultsCheckShape(flt)))
+	fmt.Fprintf(&out, "/-- statements of faults.Description.match, in order -/\ndef faultsMatchShape : List String := %s\n", q(faultsMatchShape(flt)))
 
 	out.WriteString("\nend Mmmbbb.Extracted\n")
 	if len(problems) > 0 {
